@@ -26,7 +26,7 @@ end iocopy.UDP
 namespace Skel
 def Bidirectional : List String := ["wg.Add", "wg.Done", "connA.Close", "connA.Read", "writerB.Write", "writerB.Close", "tryCloseWrite", "wg.Done", "connB.Close", "readerB.Read", "connA.Write", "tryCloseWrite", "wg.Wait", "connA.Close", "connB.Close"]
 def UDP : List String := ["wg.Add", "wg.Done", "tunnelConn.Write", "batchMu.Lock", "flushLocked", "batchMu.Unlock", "udpConn.Read", "batchMu.Lock", "flushLocked", "batchMu.Unlock", "batchMu.Lock", "flushLocked", "batchMu.Unlock", "flushLocked", "batchMu.Unlock", "tryCloseWrite", "wg.Done", "udpConn.Close", "flush", "udpConn.Write", "tunnelConn.Read", "flush", "flush", "flush", "flush", "wg.Wait", "udpConn.Close", "tunnelConn.Close"]
-def UDPVirtualConn_Write : List String := ["updateLastActive"]
+def UDPVirtualConn_Write : List String := ["make", "copy", "updateLastActive"]
 def UDPVirtualConn_writeLoop : List String := ["listener.WriteTo"]
 def readWriteCloser_Close : List String := ["closeFunc"]
 def readWriteCloser_CloseWrite : List String := ["closeWriteFunc", "cw.CloseWrite"]
